@@ -38,9 +38,6 @@ def list_extend(I, st, fv, args, kwargs, ctx):
     if isinstance(other, Ref) and st.heap[other.oid].kind == "list":
         h.seq = z3.Concat(h.seq, st.heap[other.oid].seq)
         return [(st, Conc(None))]
-    if isinstance(other, Sym):
-        h.seq = z3.Concat(h.seq, vm.tup(other.t))
-        return [(st, Conc(None))]
     raise OutOfReach("list.extend(%r)" % (other,))
 
 
